@@ -31,13 +31,13 @@ def gen_max_position(seed: int):
            "stratum": "max_position", "wall_cap": 1500}
     g = Gen(seed, "thorough", cfg)
     g.emit({"op": "new_doc", "rows": 1, "cols": 1, "hr": 0, "hc": 0})
-    g.emit({"op": "write", "d": 0, "s": 0, "t": 0, "r": 0, "c": 999, "v": V.enc("last column")})
+    g.emit({"op": "write", "d": 0, "s": 0, "t": 0, "r": 0, "c": 999, "v": V.enc("last column"), "nota": "a1"})
     g.emit({"op": "bad_pos", "d": 0, "s": 0, "t": 0, "method": "write", "r": {"rel": "in", "k": 0}, "c": {"rel": "max", "k": 0}, "nota": "rc"})
     g.emit({"op": "save", "d": 0, "slot": "f0"})
     g.emit({"op": "restart", "d": 0, "slot": "f0"})
     g.emit({"op": "new_doc", "d": 0, "rows": 1, "cols": 1, "hr": 0, "hc": 0})
     g.emit({"op": "drop", "d": 0})
-    g.emit({"op": "write", "d": 0, "s": 0, "t": 0, "r": 999_999, "c": 0, "v": V.enc(12.5)})
+    g.emit({"op": "write", "d": 0, "s": 0, "t": 0, "r": 999_999, "c": 0, "v": V.enc(12.5), "nota": "a1"})
     g.emit({"op": "bad_pos", "d": 0, "s": 0, "t": 0, "method": "write", "r": {"rel": "max", "k": 0}, "c": {"rel": "in", "k": 0}, "nota": "rc"})
     g.emit({"op": "save", "d": 0, "slot": "f1"})
     g.emit({"op": "restart", "d": 0, "slot": "f1"})
